@@ -352,6 +352,9 @@ class Inotify:
             break
 
         with self._lock:
+            if self._closed:
+                # close() ran (and released the descriptors) while the lock was not held.
+                return []
             event_list = []
             for wd, mask, cookie, name in Inotify._parse_event_buffer(event_buffer):
                 if wd == -1:
